@@ -226,15 +226,17 @@ impl Prop for UnknownNames {
         "C16/unknown-names".into()
     }
     fn rule(&self) -> String {
-        "a function (impl or vftable, a quarter of them with a name starting with an underscore) whose calling_convention names something that is not one of the seven supported spellings (near misses in case, padding, other ABIs), alone or next to a second calling_convention attribute before or after it, in the same or a separate bracket; oracle: the build is an error when any of the names is unknown. The seven correct spellings are included as controls and must be accepted".into()
+        "a function (impl or vftable, a quarter of them with a name starting with an underscore) whose calling_convention names something that is not one of the seven supported spellings (near misses in case, padding, other ABIs from a list; or a supported name with one small change: wrapped in or followed by quote characters, one of a dozen characters in front or behind, a letter dropped, doubled or changed in case), alone or next to a second calling_convention attribute before or after it, in the same or a separate bracket; oracle: the build is an error when any of the names is unknown. The seven correct spellings are included as controls and must be accepted".into()
     }
     fn gen(&self, t: &mut Tape) -> BadCcCase {
         let pool = [
             "Thiscall", "THISCALL", "stdcall ", " stdcall", "win64", "sysv64", "c", "Cdecl", "fast-call", "fastcall\n", "", "rust", "vector_call", "system ", "C ", "aapcs", "thiscall-unwind", "C-unwind",
             "C", "cdecl", "stdcall", "fastcall", "thiscall", "vectorcall", "system",
         ];
+        // half of the names from the list, half a supported name with one small change
+        let cc = if t.chance(1, 2) { t.pick(&pool).to_string() } else { near_miss(t) };
         BadCcCase {
-            cc: t.pick(&pool).to_string(),
+            cc,
             on_vfunc: t.chance(1, 2),
             w: if t.chance(1, 2) { 8 } else { 4 },
             second: if t.chance(1, 3) { Some((t.pick(&pool).to_string(), t.chance(1, 2), t.chance(1, 2))) } else { None },
@@ -286,6 +288,26 @@ impl Prop for UnknownNames {
             (Res::Ok(_), false) => Outcome::fail("unknown-accepted", format!("calling_convention({:?}) (second attribute: {:?}) was accepted", c.cc, c.second)),
             (Res::Err(e), true) => Outcome::fail("known-rejected", format!("calling_convention({:?}) (second attribute: {:?}) was rejected: {e}", c.cc, c.second)),
         }
+    }
+}
+
+/// One of the seven supported names with one small change: wrapped in or followed by quote characters, a
+/// character put in front or behind, a letter dropped, doubled or changed in case.
+fn near_miss(t: &mut Tape) -> String {
+    let base = t.pick(&crate::genprog::CCS).to_string();
+    let extra = *t.pick(&['"', '\'', ' ', '\t', '_', '-', '\u{a0}', '\u{feff}', '\\', '\0', '`', ';']);
+    let chars: Vec<char> = base.chars().collect();
+    let k = t.below(chars.len() as u64) as usize;
+    match t.below(9) {
+        0 => format!("\"{base}\""),
+        1 => format!("{base}\""),
+        2 => format!("\"{base}"),
+        3 => format!("{extra}{base}"),
+        4 => format!("{base}{extra}"),
+        5 => format!("{extra}{base}{extra}"),
+        6 => chars.iter().enumerate().filter(|(i, _)| *i != k).map(|(_, c)| *c).collect(),
+        7 => chars.iter().enumerate().flat_map(|(i, c)| if i == k { vec![*c, *c] } else { vec![*c] }).collect(),
+        _ => chars.iter().enumerate().map(|(i, c)| if i == k { if c.is_uppercase() { c.to_ascii_lowercase() } else { c.to_ascii_uppercase() } } else { *c }).collect(),
     }
 }
 
